@@ -83,8 +83,8 @@ async def run_scenario(sc):
     ag = build_agent(sc, events, proto)
     conc, absoid = mapping(sc)
     c = make_client(ag, proto)
-    import puresnmp.util as U
-    real_time = U.time
+    import puresnmp.api.raw, puresnmp_plugins.security.usm  # noqa
+    _clk = None
     if sc.get("ticks"):
         t = [sc.get("t0", 5000)]
 
@@ -92,7 +92,8 @@ async def run_scenario(sc):
             v = t[0]
             t[0] += sc["ticks"][0]
             return v
-        U.time = clock
+        _clk = patched_clock(None, request_id=clock)
+        _clk.__enter__()
     roots = [OID(oidstr(conc(r))) for r in sc["roots"]]
     sroots = [oidstr(conc(r)) for r in sc["roots"]]
     bulk = sc.get("bulk", 0)
@@ -149,7 +150,8 @@ async def run_scenario(sc):
     except Exception as ex:       # noqa
         events.append(dict(e="end", outcome=exc_name(ex), snmp=is_snmp_error(ex)))
     finally:
-        U.time = real_time
+        if _clk is not None:
+            _clk.__exit__(None, None, None)
     return dict(scenario=sc, events=events)
 
 
